@@ -244,14 +244,14 @@ structure Inst where
   deriving Repr, Inhabited
 
 /-- First loop of `Term.subst`: extend `tyinst` by matching the declared type of every schematic
-variable that is instantiated against the (lax) type of its instance. -/
+variable that is instantiated against the (checked) type of its instance. -/
 def matchSvars (inst : List (String × Term)) : List (String × Ty) → Ty.TyInst → Except TErr Ty.TyInst
   | [], σ => .ok σ
   | (n, T) :: rest, σ =>
     match inst.lookup n with
     | none => matchSvars inst rest σ
     | some s => do
-      let instT ← getType [] s
+      let instT ← checkedGetType [] s
       match Ty.matchIncr T instT σ with
       | some σ' => matchSvars inst rest σ'
       | none => .error .term
@@ -266,7 +266,7 @@ def substRec (inst : Inst) : Term → Except TErr Term
   | .var n T =>
     match inst.vars.lookup n with
     | some s => do
-      let sT ← getType [] s
+      let sT ← checkedGetType [] s
       if sT != T then .error .term else .ok s
     | none => .ok (.var n T)
   | .comb f a => do
